@@ -77,6 +77,14 @@ def gen_cases(tier, seed):
                 if op == "squash" and na == 0:
                     continue  # removing the empty slices of an all-zero tensor has no defined result
                 yield {"w": "unary", "op": op, "shape": list(shp), "na": na, "orders": "all", "cseed": int(seed) * 104729 + next(cs)}
+    # exact cancellation: two stored entries of one fibre sum to 0.0 at an addressed position of a long, mostly empty result mode -- the
+    # result must not store that zero (and must be empty when everything cancels)
+    for _ in range(2 if tier == "quick" else 12):
+        for op in ("ttv", "collapse", "ttm"):
+            for shp in ((2, 6), (2, 2, 7), (3, 8), (2, 9)):
+                for na in (2, 3, 4):
+                    yield {"w": "unary", "op": op, "shape": list(shp), "na": na, "orders": "all" if na <= 3 else "random", "cancel": True,
+                           "cseed": int(seed) * 104729 + next(cs)}
     # the structural sanitizer under the other properties' traffic: their quick workloads replayed with only ILLFORMED listening
     import importlib
 
@@ -187,6 +195,23 @@ def run_case(case, ctx):
                 B = np.where((A != 0) & (rng.random(shape) < 0.7), A if rng.random() < 0.5 else A * 2, B)
         nb = 0 if B is None else int(np.count_nonzero(B))
     params = _params(op, rng, shape, A)
+    if case.get("cancel"):
+        N_ = len(shape)
+        A = np.zeros(shape)
+        j = int(rng.integers(0, shape[-1]))
+        lead = [tuple(int(x) for x in ix) for ix in np.ndindex(*shape[:-1])]
+        i1, i2 = [lead[k] for k in rng.choice(len(lead), size=2, replace=False)]
+        v = float(rng.choice([1.0, 2.0, 0.5, 3.0]))
+        A[i1 + (j,)], A[i2 + (j,)] = v, -v
+        for _k in range(case["na"] - 2):
+            jj = int(rng.integers(0, shape[-1]))
+            if jj != j:
+                A[lead[int(rng.integers(0, len(lead)))] + (jj,)] = float(rng.choice([1.0, -2.0, 3.0]))
+        na = int(np.count_nonzero(A))
+        params["dims"] = list(range(N_ - 1))
+        params["vecs"] = [np.ones(shape[d]) for d in range(N_ - 1)]
+        params["mats"] = [np.ones((1, shape[d])) for d in range(N_ - 1)]
+        ctx.feat(cancel=True)
     if op == "scale_sp":
         B = params["F"]
         nb = int(np.count_nonzero(B))
@@ -285,8 +310,13 @@ def _params(op, rng, shape, A):
         k = int(rng.integers(1, N + 1))
         dims = sorted(int(x) for x in rng.permutation(N)[:k])
         p["dims"] = dims
-        p["vecs"] = [gen.normals(rng, (shape[d],)) for d in dims]
-        p["mats"] = [gen.normals(rng, (2, shape[d])) for d in dims]
+        if rng.random() < 0.5:
+            # small-integer multiplicands: with the small-integer data values sums cancel to exactly 0.0 at addressed positions
+            p["vecs"] = [rng.choice([1.0, -1.0, 1.0, 0.0, 2.0], size=shape[d]) for d in dims]
+            p["mats"] = [rng.choice([1.0, -1.0, 1.0, 0.0, 2.0], size=(2, shape[d])) for d in dims]
+        else:
+            p["vecs"] = [gen.normals(rng, (shape[d],)) for d in dims]
+            p["mats"] = [gen.normals(rng, (2, shape[d])) for d in dims]
     elif op == "mttkrp":
         p["n"] = int(rng.integers(0, N))
         p["U"] = [gen.normals(rng, (s, 2)) for s in shape]
